@@ -73,60 +73,13 @@ impl Metablock {
 //@subst D7 /pub fn verify<'a, I>\(/ => pub fn verify<'a>(
 //@subst D7 /authorized_keys: I,/ => authorized_keys: Vec<&'a PublicKey>,
 //@subst D7 /where\s+I: IntoIterator<Item = &'a PublicKey>,/ => 
-//@subst G1 /\.map\(\|k\| (\(k\.key_id\(\), k\))\)/ => .map(|k: &'a PublicKey| -> (r: (&'a KeyId, &'a PublicKey)) ensures *r.0 == k.kid(), r.1 == k { \1 })
-//@subst G1 /\.map\(\|sig\| (\(sig\.key_id\(\), sig\))\)/ => .map(|sig: &Signature| -> (r: (&KeyId, &Signature)) ensures *r.0 == sig.kid(), r.1 == sig { \1 })
-//@contract ret=r
-    ensures
-        r is Ok ==> threshold >= 1,                              // [C04]
-        r is Ok ==> self.signatures@.len() >= 1,                 // [C04]
-        r is Ok ==> r->Ok_0 == self.metadata,                    // [C04]
-        r is Ok ==> exists|good: Set<KeyId>| good.len() >= threshold
-            && forall|id: KeyId| good.contains(id) ==> counted_ok(*self, authorized_keys@, id),   // [C04]
-//@before /if self\.signatures\.is_empty\(\)/
-        let ghost keys0 = authorized_keys@;
-        proof { fact_keyid_key_model(); }
-//@before /let raw = self\.metadata\.to_bytes\(\)\?;/
-        let ghost authmap = authorized_keys@;
-        assert(forall|id: &KeyId| #[trigger] authmap.contains_key(id) ==> exists|i: int| 0 <= i < keys0.len() && (#[trigger] keys0[i]).kid() == *id && authmap[id] == keys0[i]);
-//@after /let raw = self\.metadata\.to_bytes\(\)\?;/
-        let ghost raw0 = raw@;
-//@after /\.replace\("\\\\n", "\\n"\);/
-        proof { fact_replace_str_pattern(vstd::utf8::decode_utf8(raw0), "\\n", "\n"@); }
-        assert(signed_msg(self.metadata) == Some(vstd::utf8::encode_utf8(metadata@)));
-//@before /check the signatures, if is signed by an authorized key/
-        let ghost sigmap = signatures@;
-        assert(forall|id: &KeyId| #[trigger] sigmap.contains_key(id) ==> exists|j: int| 0 <= j < self.signatures@.len() && (#[trigger] self.signatures@[j]).kid() == *id && *sigmap[id] == self.signatures@[j]);
-        let ghost mut counted: Set<KeyId> = Set::empty();
-//@loop 1 iter=it
-            invariant_except_break
-                signatures_needed >= 1,
-            invariant
-                threshold >= 1,
-                signatures_needed <= threshold,
-                signed_msg(self.metadata) == Some(vstd::utf8::encode_utf8(metadata@)),
-                forall|i: int, j: int| 0 <= i < j < it.seq().len() ==> (#[trigger] it.seq()[i]).0 != (#[trigger] it.seq()[j]).0,
-                forall|i: int| 0 <= i < it.seq().len() ==> sigmap.contains_key((#[trigger] it.seq()[i]).0) && sigmap[it.seq()[i].0] == it.seq()[i].1,
-                forall|k: KeyId| counted.contains(k) ==> exists|i: int| 0 <= i < it.index() && *(#[trigger] it.seq()[i]).0 == k,
-                counted.len() == threshold - signatures_needed,
-                forall|k: KeyId| counted.contains(k) ==> counted_ok(*self, keys0, k),
-                forall|id: &KeyId| #[trigger] sigmap.contains_key(id) ==> exists|j: int| 0 <= j < self.signatures@.len() && (#[trigger] self.signatures@[j]).kid() == *id && *sigmap[id] == self.signatures@[j],
-                forall|id: &KeyId| #[trigger] authmap.contains_key(id) ==> exists|i: int| 0 <= i < keys0.len() && (#[trigger] keys0[i]).kid() == *id && authmap[id] == keys0[i],
-                authmap == authorized_keys@,
-                vstd::std_specs::hash::obeys_key_model::<&KeyId>(),
-//@before /signatures_needed -= 1;/
-                        proof {
-                            assert(sigmap.contains_key(key_id) && sigmap[key_id] == sig);
-                            assert(authmap.contains_key(key_id) && authmap[key_id] == *pub_key);
-                            let i0 = choose|i: int| 0 <= i < keys0.len() && (#[trigger] keys0[i]).kid() == *key_id && authmap[key_id] == keys0[i];
-                            let j0 = choose|j: int| 0 <= j < self.signatures@.len() && (#[trigger] self.signatures@[j]).kid() == *key_id && *sigmap[key_id] == self.signatures@[j];
-                            assert(keys0[i0] == *pub_key);
-                            assert(self.signatures@[j0] == *sig);
-                            assert(pub_key.sig_ok(vstd::utf8::encode_utf8(metadata@), *sig));
-                            assert(keys0[i0].sig_ok(signed_msg(self.metadata)->0, self.signatures@[j0]));
-                            assert(counted_ok(*self, keys0, *key_id));
-                            assert(!counted.contains(*key_id));
-                            counted = counted.insert(*key_id);
-                        }
+//@include contracts/metablock_verify_body.rs KEYS=authorized_keys@
+//@end
+//@extract src/models/metadata.rs impl:Metablock/fn:verify props=C04,C14 as=Metablock::verify<Values>
+//@subst D7 /pub fn verify<'a, I>\(/ => pub fn verify_values<'a>(
+//@subst D7 /authorized_keys: I,/ => authorized_keys: std::collections::hash_map::Values<'a, KeyId, PublicKey>,
+//@subst D7 /where\s+I: IntoIterator<Item = &'a PublicKey>,/ => 
+//@include contracts/metablock_verify_body.rs KEYS=vstd::std_specs::iter::IteratorSpec::remaining(&authorized_keys)
 //@end
 }
 } // verus!
